@@ -1641,6 +1641,54 @@ def rule_hd_emit(cx, rep, port):
         rep.holds('header emission', pend[0], 'the deferred header `{}` is emitted, or tested to be absent, on every normal path through finish()'.format(attr))
 
 
+def _js_column_infos_model(cx):
+    """adhoc_parse_select_expression_to_column_infos (JS header inference) evaluated on eleven select lists - numbered and named columns, stars,
+    subscripts with a number / a quoted name, aliases, nested brackets, another table's name, blanks and a tab before and after the
+    commas: the (table, zero-based index, name, star, alias) per item.  '' / problem / None (outside the abstract interpreter)"""
+    if hasattr(cx, '_js_column_infos_model'):
+        return cx._js_column_infos_model
+    from .. import absexec as AX
+    p = cx.js
+    mod = cx.engine_mod('js')
+    S = '__RBQL_INTERNAL_STAR'
+    col = lambda t, i: (t, i, None, False, None)      # noqa: E731
+    nm = lambda n_: (None, None, n_, False, None)     # noqa: E731
+    al = lambda a_: (None, None, None, False, a_)     # noqa: E731
+    cases = [('a1', [], [col('a', 0)]), (' a1 , b12 ', [], [col('a', 0), col('b', 11)]), (S + ',foo', [], [(None, None, None, True, None), nm('foo')]),
+             ('a.name , b.' + S, [], [nm('name'), ('b', None, None, True, None)]), ('a[3],b[___RBQL_STRING_LITERAL0___]', ['"x y"'], [col('a', 2), nm('x y')]),
+             ('a1 + 1, a2 as total ,len(a3) AS  n2', [], [None, al('total'), al('n2')]), ('f(a1, a2), [a1, a2], a3', [], [None, None, col('a', 2)]),
+             ('c.name, c[1]', [], [None, None]), ('a1 ,a2', [], [col('a', 0), col('a', 1)]), ('a1,\ta.name\t,b2', [], [col('a', 0), nm('name'), col('b', 1)]),
+             ("a['k'], NR", [], [None, nm('NR')])]
+    res = None
+    try:
+        fd = p.func(mod, 'adhoc_parse_select_expression_to_column_infos')
+
+        def on_call(ex, node, fname, recv, args):
+            if fname == 'parseInt' and len(args) >= 1 and isinstance(args[0], str) and args[0].strip().lstrip('+-').isdigit():
+                return int(args[0].strip())
+            if isinstance(node.func, ast.Name) and node.func.id.endswith('Error'):
+                return AX.Abs('Exc', cls=node.func.id)
+            return AX.NOT_HANDLED
+        out = ''
+        for text, lits, want in cases:
+            runs, cut = AX.Explorer(p, mod, on_call=on_call, max_choices=1).explore(fd, [text, list(lits)])
+            if cut or len(runs) != 1 or runs[0].outcome[0] != 'return' or not isinstance(runs[0].outcome[1], list):
+                raise Undecided('no list of column infos for {!r}'.format(text), fd)
+            got = [None if v is None else (tuple(v.get(k) for k in ('table_name', 'column_index', 'column_name', 'is_star', 'alias_name')) if isinstance(v, dict) else v) for v in runs[0].outcome[1]]
+            if got != want and not out:
+                def show(vs):
+                    return ['no column info' if v is None else '(table {}, index {}, name {}, star {}, alias {})'.format(*v) if isinstance(v, tuple) and len(v) == 5 else repr(v) for v in vs]
+                out = 'for the select list `{}` the header inference gives {} instead of {}'.format(text.replace('\t', '<TAB>'), show(got), show(want))
+        res = out
+    except (Undecided, AX.Cut, AX._NeedChoice, AX.Raised, KeyError, IndexError, TypeError, AttributeError, ValueError) as e_:
+        import os
+        if os.environ.get('RBQL_VERIF_DEBUG'):
+            print('JS column infos model gave up:', type(e_).__name__, str(e_)[:200])
+        res = None
+    cx._js_column_infos_model = res
+    return res
+
+
 def rule_hd_spantrim(cx, rep, port='js'):
     """javascript header inference works on the text of each select item: the blanks around an item are removed with trim(), i.e. every
     character the expression parser itself skips.  A helper that removes plain spaces only leaves a tab / no-break space / line break
@@ -1648,6 +1696,13 @@ def rule_hd_spantrim(cx, rep, port='js'):
     from .. import regexlang as R
     p = cx.js
     mod = cx.engine_mod('js')
+    jm = _js_column_infos_model(cx)
+    if jm is not None:
+        fd_ = p.func(mod, 'adhoc_parse_select_expression_to_column_infos')
+        for fname in ('parse_root_bracket_level_text_spans', 'column_info_from_text_span'):
+            rep.decide(jm == '', fname + ' item text', fd_, 'blanks and tabs around select items do not change the inferred column (header inference evaluated on eleven select lists)', jm)
+        return
+    rep._fallback = 'the JS header inference is outside the abstract interpreter'
     n = 0
     for fname in ('parse_root_bracket_level_text_spans', 'column_info_from_text_span'):
         fd = p.func(mod, fname, required=False)
